@@ -29,9 +29,81 @@ pub fn fixed_universe() -> Universe {
     serde_json::from_str(&std::fs::read_to_string(&p).unwrap_or_else(|_| panic!("missing {}", p))).expect("fixed universe json")
 }
 
+/// A universe extended with near-miss mutants (C04): label `m<base label>`.
+pub fn mutant_universe(mut u: Universe, seed: u64) -> Universe {
+    let s = vmodel::mix_seed(&["mutants", &u.label], seed);
+    let mut runner = TestRunner::new(Config { failure_persistence: None, rng_seed: RngSeed::Fixed(s), ..Config::default() });
+    let choices = gen::choices(4000).new_tree(&mut runner).expect("choices").current();
+    let mut src = gen::Src::new(&choices);
+    u.label = format!("m{}", u.label);
+    let n_subjects = u.subjects.len();
+    vmodel::mutate::add_mutants(&mut u, &mut src, 2, 2);
+    // one dedicated pair per layout-only mutant below `Bound`, whose alignment hash does not recurse (O9)
+    let layout_mutants: Vec<(usize, usize)> = u
+        .adts
+        .iter()
+        .enumerate()
+        .filter(|(_, d)| d.mutation.as_deref().map_or(false, |m| m.starts_with("repr(")) && d.params.is_empty())
+        .map(|(i, d)| (d.mutant_of.unwrap(), i))
+        .take(3)
+        .collect();
+    for (orig, mutant) in layout_mutants {
+        use vmodel::ty::Ty;
+        let (a, b) = (Ty::bound(Ty::adt(orig, vec![])), Ty::bound(Ty::adt(mutant, vec![])));
+        if vmodel::gen::has_zst_block(&u, &a) || vmodel::gen::zst_like(&u, &Ty::adt(orig, vec![])) {
+            continue;
+        }
+        u.subjects.push(a);
+        u.subjects.push(b);
+        u.pairs.push((u.subjects.len() - 2, u.subjects.len() - 1));
+    }
+    // near misses of built-in compositions
+    for si in 0..n_subjects.min(160) {
+        let t = u.subjects[si].clone();
+        for m in vmodel::mutate::builtin_near_misses(&u, &t).into_iter().take(2) {
+            let ti = match u.subjects.iter().position(|x| *x == m) {
+                Some(p) => p,
+                None => {
+                    u.subjects.push(m);
+                    u.subjects.len() - 1
+                }
+            };
+            if ti != si {
+                u.pairs.push((si, ti));
+            }
+        }
+    }
+    u
+}
+
 pub fn universe_by_label(label: &str, opts: &Opts) -> Universe {
     if label == "fixed" {
         return fixed_universe();
+    }
+    if label == "replay" {
+        let r = opts.replay.as_ref().and_then(|p| crate::read_json(&p.to_string_lossy())).expect("replay file");
+        let mut u: Universe = serde_json::from_value(r["universe_inline"].clone()).expect("universe_inline");
+        u.label = "replay".into();
+        return u;
+    }
+    if let Some(base) = label.strip_prefix('m') {
+        let b = if base == "fixed" {
+            let mut f = fixed_universe();
+            // the hand-written part and its subjects keep the program small
+            f.subjects.truncate(200);
+            f
+        } else {
+            let rest = &base[1..];
+            let (sd, k) = match rest.split_once('k') {
+                Some((s, k)) => (s.parse::<u64>().unwrap(), k.parse::<u64>().unwrap()),
+                None => (rest.parse::<u64>().unwrap(), 0),
+            };
+            let s = vmodel::mix_seed(&["universe-c04", &k.to_string()], sd);
+            let mut runner = TestRunner::new(Config { failure_persistence: None, rng_seed: RngSeed::Fixed(s), ..Config::default() });
+            let choices = gen::choices(5000).new_tree(&mut runner).expect("choices").current();
+            gen::universe_from(&choices, UniCfg { n_adts: 30, n_builtin_subjects: 30, ..UniCfg::default() }, base).0
+        };
+        return mutant_universe(b, opts.seed);
     }
     // s<seed> or s<seed>k<k>
     let rest = &label[1..];
@@ -162,6 +234,23 @@ pub fn cargo_build(dir: &Path, keep_going: bool) -> BuildOutcome {
     }
     let stderr = String::from_utf8_lossy(&out.stderr);
     res.raw_tail = stderr.lines().rev().take(30).collect::<Vec<_>>().into_iter().rev().collect::<Vec<_>>().join("\n");
+    res
+}
+
+/// `cargo check` of the subjects crate in `dir`.
+pub fn cargo_check(dir: &Path) -> BuildOutcome {
+    let mut c = cargo();
+    c.arg("check").arg("--manifest-path").arg(dir.join("Cargo.toml")).arg("--bins").arg("--message-format=json").arg("--offline");
+    let out = c.output().expect("cargo");
+    let stdout = String::from_utf8_lossy(&out.stdout);
+    let mut res = BuildOutcome { ok: out.status.success(), ..Default::default() };
+    for line in stdout.lines() {
+        let Ok(v) = serde_json::from_str::<Value>(line) else { continue };
+        if v["reason"] == "compiler-message" && v["message"]["level"] == "error" {
+            let target = v["target"]["name"].as_str().unwrap_or("?").to_string();
+            res.errors.entry(target).or_default().push(v["message"]["rendered"].as_str().unwrap_or("").to_string());
+        }
+    }
     res
 }
 
